@@ -458,6 +458,24 @@ class _FArr:
         return iter(self.data)
 
     def __getitem__(self, i):
+        if isinstance(i, tuple):
+            # NumPy-style indexing of the nested list with ints / slices
+            def rec(x, keys):
+                if not keys:
+                    return x
+                k = keys[0]
+                if isinstance(k, slice):
+                    return [rec(e, keys[1:]) for e in x[k]]
+                if not (-len(x) <= k < len(x)):
+                    raise IndexError("index is out of bounds for axis with size %d" % len(x))
+                # explicit selection: a (possibly symbolic) index never reaches list.__getitem__
+                for j in range(len(x)):
+                    if k == j or k == j - len(x):
+                        return rec(x[j], keys[1:])
+                raise IndexError("index out of bounds")
+            if len(i) > len(self.shape):
+                raise IndexError("too many indices for array")
+            return rec(self.data, list(i))
         return self.data[i]
 
     def ravel(self):
